@@ -405,6 +405,62 @@ def _check_dump(w):
     return None
 
 
+def _check_entry(w):
+    """the binary entry points, given the frame as bytes and as bytearray (what the serial client cuts out of its receive
+    buffer): the returned message serialises, parses back to the same header/fields, and is dumped"""
+    from nmea2000.message import NMEA2000Message
+    from nmea2000.encoder import NMEA2000Encoder
+    src = new_decoder()
+    try:
+        m0 = src.decode_basic_string(w["line"], True)
+    except Exception:  # noqa: BLE001
+        return None
+    if m0 is None:
+        return None
+    enc = NMEA2000Encoder()
+    try:
+        frames = {"decode_usb": enc.encode_usb(m0), "decode_tcp": enc.encode_ebyte(m0)}
+    except Exception:  # noqa: BLE001
+        return None
+    base = {**w, "kind": "entry"}
+    for meth, pk in frames.items():
+        for typ in (bytes, bytearray):
+            fd, path = tempfile.mkstemp(prefix="msg_dump_", suffix=".jsonl", dir="/tmp")
+            os.close(fd)
+            os.unlink(path)
+            try:
+                dec = new_decoder(dump_to_file=path)
+                m = None
+                try:
+                    for f in pk:
+                        m = getattr(dec, meth)(typ(f))
+                except Exception as e:  # noqa: BLE001
+                    return {**base, "key": f"entry:{typ.__name__}:decode-raises",
+                            "what": f"{meth}({typ.__name__}) of the frames of {w['line']!r} raised {e!r} (dump enabled)"}
+                dec.close()
+                text = open(path).read() if os.path.exists(path) else ""
+            finally:
+                if os.path.exists(path):
+                    os.unlink(path)
+            if m is None:
+                continue
+            try:
+                t = m.to_json()
+                _loads(t)
+                p2 = NMEA2000Message.from_json(t)
+            except Exception as e:  # noqa: BLE001
+                return {**base, "key": f"entry:{typ.__name__}:json-raises",
+                        "what": f"message returned by {meth}({typ.__name__}) for {w['line']!r}: to_json / from_json raised {e!r}"}
+            if (p2.PGN, p2.id, p2.source, p2.destination, p2.priority, len(p2.fields)) != \
+                    (m.PGN, m.id, m.source, m.destination, m.priority, len(m.fields)):
+                return {**base, "key": f"entry:{typ.__name__}:json-header", "what": f"{meth}({typ.__name__}): header changed through JSON"}
+            if text != t + "\n":
+                return {**base, "key": f"entry:{typ.__name__}:dump",
+                        "what": f"{meth}({typ.__name__}) for {w['line']!r}: dump file holds {len(text.splitlines())} line(s), expected "
+                                "exactly the JSON of the returned message"}
+    return None
+
+
 def nan_witness():
     d = [x for x in db() if x["PGN"] == 129045][0]
     f = [x for x in d["Fields"] if x["Id"] == "rotationInX"][0]
@@ -445,6 +501,11 @@ def search(ctx):
                  (U.random_prefs(rng) if rng.random() < 0.3 else {}))
         emit(_check_dump({"kind": "dump", "dump_pgns": dump_pgns, "net": rng.random() < 0.5, "lines": lines,
                           "prefs": {k.name: v for k, v in prefs.items()}}))
+    for it in range(ctx.n(3, 20)):
+        lines, _ids, _pgns = _history(rng, 12)
+        for ln in lines:
+            if ln.split(",")[2] != "60928":
+                emit(_check_entry({"kind": "entry", "line": ln}))
     # non-ASCII text in dumped messages (STRING_LAU fields, UTF-16 and UTF-8 coded): the dump lines must be exactly
     # the JSON of the returned messages, whatever characters it contains
     uni = ["2021-01-30-20:43:21.684,6,126998,1,255,19,07,01,68,65,6C,6C,6F,0c,00,77,00,F3,00,72,00,6C,00,64,00",
@@ -476,6 +537,10 @@ def search(ctx):
 
 def replay(ctx, data):
     w = data.get("witness", data)
+    if w.get("kind") == "entry":
+        r = _check_entry(w)
+        print("observed:", r["what"] if r else "property holds on this input")
+        return r is not None
     clean = {k: v for k, v in w.items() if k not in ("key", "what")}
     if w.get("kind") == "json":
         r = _check_json(clean)
